@@ -37,6 +37,14 @@ func c04RandNoise(r *rand.Rand, n int) [][]byte {
 	return out
 }
 
+// c04P0: first payload byte (the sequence tag the generators put there), -1 for an empty payload
+func c04P0(b []byte) int {
+	if len(b) == 0 {
+		return -1
+	}
+	return int(b[0])
+}
+
 type c04Pkt struct {
 	Rel bool
 	Msg inMsg
@@ -66,7 +74,7 @@ func (p c04Pkt) desc() string {
 	if p.Msg.Dup {
 		d = ",dup"
 	}
-	return fmt.Sprintf("PUBLISH(q%d,id%d%s,#%d)", p.Msg.QoS, p.Msg.ID, d, p.Msg.Payload[0])
+	return fmt.Sprintf("PUBLISH(q%d,id%d%s,#%d)", p.Msg.QoS, p.Msg.ID, d, c04P0(p.Msg.Payload))
 }
 
 // c04Run feeds the packets to a connected BaseClient and returns the reader goroutine's
@@ -145,7 +153,7 @@ func c04Run(handler bool, pkts []c04Pkt) ([]string, []string, error) {
 		switch e.Kind {
 		case "hand":
 			coq = append(coq, "Hand "+cLibMsg(e.Msg))
-			desc = append(desc, fmt.Sprintf("hand(q%d,id%d,#%d)", e.Msg.QoS, e.Msg.ID, e.Msg.Payload[0]))
+			desc = append(desc, fmt.Sprintf("hand(q%d,id%d,#%d)", e.Msg.QoS, e.Msg.ID, c04P0(e.Msg.Payload)))
 		case "write":
 			if e.Pkt[0] == 0xE0 {
 				continue // the held DISCONNECT of the "disconnect pending" family
@@ -298,6 +306,12 @@ func runC04(cfg *runCfg) error {
 				pkts = append(pkts, c04Pkt{Msg: inMsg{Topic: []byte("q2"), QoS: 2, ID: id, Dup: r.Intn(3) == 0, Retain: r.Intn(4) == 0, Payload: []byte{byte(j + 1)}}})
 			default:
 				pkts = append(pkts, c04Pkt{Rel: true, ID: id})
+			}
+		}
+		// zero-length payloads (e.g. the message that clears a retained one) at every QoS
+		for j := range pkts {
+			if !pkts[j].Rel && r.Intn(6) == 0 {
+				pkts[j].Msg.Payload = nil
 			}
 		}
 		c04Noise = nil
